@@ -8,6 +8,9 @@ CLAIMS = {
  "C05": dict(engine="SYMX", text="Bounded model checking of every statistic accessor of HvsrTraditional from an arbitrary valid state (symbolic curves and peaks, solver-forked accept/reject/no-peak status per window, three distribution spellings): per state the returned term is proved equal (unsat of the negation) to the textbook estimator over the accepted rows; frame condition on the symbols of rejected windows; reciprocal/symmetry consequences; a transition instance covers constructor + range update.",
    note="Bounds: 2-3 (quick) / 2-4 (thorough) windows, 2/3 frequencies. Floats read as reals; sqrt/exp/log uninterpreted with log(exp u)=u (argument equality is decided); np.cov runs numpy's own code via aweights=ones. States are constructed directly (one step from any valid state), transitions into those states are covered by C06/C08/C13.",
    tech="symbolic execution of the real source from an arbitrary valid state + z3 (NRA/UF) equality queries against textbook estimators", ref="2/C05"),
+ "C06": dict(engine="SYMX", text="Bounded model checking of the real FDWRA code: the inner routine is executed from an arbitrary valid state (symbolic peak frequencies, curves and n; every max_iterations in the bound; 4 distribution pairs) next to a transcription of the published loop on a shadow state, and on every solver-enumerated path the masks, the returned count, monotonicity and the iteration bound must agree; the outer function is checked to be 'peak search + inner routine per object, maximum of the counts'; small end-to-end runs on constructor-built traditional and azimuthal objects; permutation and scale invariance.",
+   note="Bounds: 3-4 (quick) / 3-5 (thorough) windows, 3-4 frequencies, max_iterations 1-3/1-4, 2 azimuths. The estimators the loop calls are C05's subject (the reference calls the same accessors on a shadow object). sqrt/exp/log uninterpreted with monotone log-space comparisons; witnesses are concretised across the uninterpreted-function gap and replayed. Rounding in the 0.01 tests outside the claim.",
+   tech="symbolic execution of the real source vs. reference transcription of Cox et al. (2020), path-wise agreement decided by z3 branch feasibility; witnesses replayed", ref="2/C06"),
  "C08": dict(engine="SYMX", text="Bounded model checking of the real peak-picking code: every feasible path of HvsrCurve/HvsrTraditional/HvsrAzimuthal/HvsrDiffuseField peak search on symbolic curves, grids and ranges is enumerated by the solver and the property is discharged per path as an unsat query; holds for all real-valued curves within the size bounds, not beyond.",
    note="Bounds: 4-5 (quick) / 4-7 (thorough) points per curve, <=2/3 curves, <=2 azimuths, <=2 range updates. scipy.signal.find_peaks replaced by a transcription of _local_maxima_1d validated against scipy on path witnesses; real arithmetic; find_peaks_kwargs beyond none outside the claim.",
    tech="symbolic execution of the real source + z3 (LRA) per-path unsat queries; witnesses replayed", ref="2/C08"),
